@@ -320,18 +320,99 @@ def check_override_scope(path):
     return fails[:3]
 
 
+class Nest(Composer):
+    """the usual shape of a composer configuration: one sub-dictionary of parameters per process"""
+    defaults = {'grow': {'rate': 1, 'timestep': 1.0}, 'scale': {'factor': 2.0}}
+
+    def generate_processes(self, config):
+        return {'grow': Grow(config['grow'])}
+
+    def generate_topology(self, config):
+        return {'grow': {'pool': ('pool',)}}
+
+
+def check_composer_reuse(path):
+    """options passed to ONE generate() call are for that composite only: the composer generates the same composite afterwards as
+    a fresh composer does, at the root and at a path"""
+    fails = []
+    try:
+        comp = Nest({})
+        special = comp.generate({'grow': {'rate': 3}}, path=path)
+        again = comp.generate(path=path)
+        fresh = Nest({}).generate(path=path)
+
+        def rate(c):
+            d = c['processes']
+            for p_ in path:
+                d = d[p_]
+            return d['grow'].parameters['rate']
+        if rate(special) != 3:
+            fails.append('generate({grow: {rate: 3}}) built a process with rate %r' % (rate(special),))
+        if rate(again) != rate(fresh) or rate(fresh) != 1:
+            fails.append('after one generate() call with the option grow/rate=3 the same composer generates rate %r; a fresh composer '
+                         'generates %r (its configuration says 1)' % (rate(again), rate(fresh)))
+        if comp.config != Nest({}).config:
+            fails.append('the composer configuration was changed by generate(config): %r' % (comp.config,))
+    except Exception as e:
+        fails.append('composer re-use raised %s: %s' % (type(e).__name__, str(e)[:160]))
+    return fails[:3]
+
+
+def check_fresh_composites():
+    """a composite that was never given any state has none -- whatever was merged into OTHER composites before: an engine built
+    from it holds the declared defaults"""
+    fails = []
+    try:
+        first = Cell({}).generate()
+        first.merge(state={'pool': {'m': 40}, 'env': {'e': 5}})
+        other = Composite({'processes': {'grow': Grow()}, 'topology': {'grow': {'pool': ('pool',)}}})
+        other.merge(composite=Composite({'state': {'pool': {'m': 77}}}))
+        later = Cell({}).generate()
+        loose = Composite({'processes': {'grow': Grow()}, 'topology': {'grow': {'pool': ('pool',)}}})
+        for name, c in (('generated by a composer', later), ('built from processes and topology', loose)):
+            if c['state'] != {}:
+                fails.append('a composite %s, never given any state, holds the state %r (merged into another composite earlier)'
+                             % (name, c['state']))
+            eng = Engine(composite=c, display_info=False, progress_bar=False, emitter='null')
+            m = eng.state.get_value()['pool']['m']
+            if m != 1:
+                fails.append('engine from a composite %s: pool/m starts at %r, its declared default is 1' % (name, m))
+    except Exception as e:
+        fails.append('fresh-composite scenario raised %s: %s' % (type(e).__name__, str(e)[:160]))
+    return fails[:3]
+
+
 def main():
     ap = argparse.ArgumentParser()
     ap.add_argument('--tier', default='quick'); ap.add_argument('--seed', type=int, default=0)
     ap.add_argument('--out', default='out/replays'); ap.add_argument('--replay', default=None)
+    ap.add_argument('--only', default=None); ap.add_argument('--prop', default='C16')
     a = ap.parse_args()
     if a.replay:
         d = json.load(open(a.replay))['scenario']
+        if 'fixed' in d:
+            fails = check_fresh_composites() if d['fixed'] == 'fresh' else check_composer_reuse(tuple(d['path']))
+            L.emit_result({'status': 'reproduced' if fails else 'not-reproduced', 'failed': fails})
+            return
         fails = check_override_scope(tuple(d['override_path'])) if 'override_path' in d else check(d['rng'])
         L.emit_result({'status': 'reproduced' if fails else 'not-reproduced', 'failed': fails})
         return
     n = 150 if a.tier == 'quick' else 3000
     evaluations = 0; failures = []; samples = []; distinct = set()
+    fixed = [('fresh', None)] + ([] if a.only == 'fresh' else [('reuse', ()), ('reuse', ('colony', 'std'))])
+    for kind, path in fixed:
+        evaluations += 1
+        distinct.add('%s-%s' % (kind, path))
+        fails = check_fresh_composites() if kind == 'fresh' else check_composer_reuse(path)
+        if fails:
+            rp = L.write_replay(a.out, a.prop, '%s%d' % (kind, len(path or ())), {'fixed': kind, 'path': list(path or ())}, fails,
+                                extra={'driver': 'bounded.c16'})
+            failures.append({'id': '%s.bounded.%s: %s' % (a.prop, kind, fails[0][:300]), 'replay': rp})
+    if a.only == 'fresh':
+        L.emit_result({'status': 'violated' if failures else 'ok', 'evaluations': evaluations, 'distinct_nontrivial': len(distinct),
+                       'failures': failures, 'samples': [{'fixed': 'fresh composites after state was merged into other composites'}],
+                       'rule': 'fixed scenario: composites never given state, after state was merged into others; distinct by case'})
+        return
     for i in range(n):
         sd = 'c16-%d-%d' % (a.seed, i)
         evaluations += 1
